@@ -236,6 +236,10 @@ class Verdicts:
     def finish(self, evidence, t0):
         os.makedirs(EVID, exist_ok=True)
         rep_dir = os.path.join(EVID, "replay")
+        if os.path.isdir(rep_dir):
+            for fn in os.listdir(rep_dir):
+                if fn.startswith(self.pid + "_"):
+                    os.remove(os.path.join(rep_dir, fn))
         n = len(self.violations)
         evidence["violations"] = n
         evidence["wall_s"] = round(time.time() - t0, 2)
@@ -247,9 +251,18 @@ class Verdicts:
                 print("KNOWN-FINDING: property=%s %s [%s] (%d cases)" % (
                     self.pid, f["what"], f["key"], self.known_hits[f["key"]]))
         if n:
+            import collections
+            hist = collections.Counter(k for k, _, _ in self.violations)
+            log("violation keys (%d distinct):" % len(hist))
+            for k, cnt in hist.most_common(80):
+                log("   %6d  %s" % (cnt, k))
             os.makedirs(rep_dir, exist_ok=True)
             seen = set()
-            for i, (key, detail, replay) in enumerate(self.violations[:50]):
+            firsts = {}
+            for tup in self.violations:
+                firsts.setdefault(tup[0], tup)
+            ordered = list(firsts.values()) + [t for t in self.violations if firsts[t[0]] is not t]
+            for i, (key, detail, replay) in enumerate(ordered[:60]):
                 path = os.path.join(rep_dir, "%s_%d.json" % (self.pid, i))
                 with open(path, "w") as f:
                     json.dump({"property": self.pid, "key": key, "detail": detail, "replay": replay}, f, indent=1)
